@@ -27,6 +27,7 @@ import types
 
 import numpy as np
 
+from engine import observe
 from engine.result import Result, tb_string, sig_key, MAX_EXEMPLARS
 from models import seqs as M
 
@@ -68,7 +69,8 @@ MANIFEST_TEXT = ('Exhaustive enumeration against a table-driven model: every DNA
                  '2 / 3 codons as single rows and split over ragged batches.  Clauses: the call returns; row lengths are '
                  'preserved; value equals the reverse complement (A<->T, C<->G, N fixed); applying it twice gives the input; '
                  '\'+\' gives the forward subsequence and \'-\' its reverse complement; each codon gives its standard amino acid '
-                 'with stops as \'*\'.')
+                 'with stops as \'*\'.  A size ladder (one array of N letters and one collection of N rows for N = 2^k-1/2^k/2^k+1 up to '
+                 '2^18 (thorough 2^20) and 10^k+-1, three encodings) repeats the reverse-complement and translation clauses on long inputs.')
 MANIFEST_NOTE = ('Trusted: NumPy, CPython, the hand-written tables in models/seqs.py (cross-checked against Biopython '
                  'on every case), input constructors (read back before judging).  Case-insensitive comparison; '
                  'strands limited to + and -; bounds as stated.')
@@ -590,7 +592,7 @@ def check_tr(res, case, ctx):
                     'verdict': 'ok' if verdict is None else verdict[0]})
 
 
-CHECKERS = {'rc': check_rc, 'st': check_st, 'tr': check_tr}
+CHECKERS = {'rc': check_rc, 'st': check_st, 'tr': check_tr, 'ladder': lambda res, case, ctx: check_ladder(res, case, ctx)}
 
 
 def check_rc_pair(res, case, ctx):
@@ -821,8 +823,100 @@ def cases_tr_batch(desc):
                     yield {'op': 'tr', 'form': 'ragged-ASCII', 'rows': rows}
 
 
+# ---- size ladder: the spaces above decide content and row structure on short inputs; a path chosen by the NUMBER of
+# letters or rows needs long inputs.  One flat array of N letters and one collection of N rows (lengths cycling 1,2,3,0)
+# per ladder size N and encoding; reverse complement and translation of the flat array against the same model.
+def ladder_sizes(tier):
+    ns = set()
+    for k in range(6, (19 if tier == 'quick' else 21)):
+        ns.update((2 ** k - 1, 2 ** k, 2 ** k + 1))
+    for k in range(2, 6 if tier == 'quick' else 7):
+        ns.update((10 ** k - 1, 10 ** k, 10 ** k + 1))
+    return sorted(ns)
+
+
+def cases_ladder(desc):
+    for n in desc['sizes']:
+        for enc in ('ACGT', 'ACGTN', 'ASCII'):
+            yield {'op': 'ladder', 'enc': enc, 'layout': 'flat', 'n': n}
+            if n <= 2 ** 17 + 1:
+                yield {'op': 'ladder', 'enc': enc, 'layout': 'rows', 'n': n}
+
+
+def ladder_text(enc, n):
+    letters = {'ACGT': 'ACGT', 'ACGTN': 'ACGTN', 'ASCII': L10}[enc]
+    j = np.arange(n, dtype=np.int64)
+    idx = (j * j + j // len(letters) + 1) % len(letters)
+    return np.frombuffer(letters.encode(), dtype=np.uint8)[idx].tobytes().decode()
+
+
+def check_ladder(res, case, ctx):
+    L = lib()
+    enc, n, layout = case['enc'], case['n'], case['layout']
+    size = '<=10^3' if n <= 1000 else ('10^3..10^5' if n <= 10 ** 5 else '>10^5')
+    feats = {'op': 'ladder', 'enc': enc, 'layout': layout, 'size': size}
+    res.evaluations += 1
+    res.states += 1
+    res.planned += 1
+    res.traces += 1
+    res.nontrivial += 1
+    if layout == 'flat':
+        text = ladder_text(enc, n)
+        rows = None
+        x = L.as_encoded_array(text, L.enc[enc])
+        exp = ('flat', M.reverse_complement(text))
+    else:
+        lens = [(1, 2, 3, 0)[i % 4] for i in range(n)]
+        text = ladder_text(enc, sum(lens))
+        rows, pos = [], 0
+        for l in lens:
+            rows.append(text[pos:pos + l])
+            pos += l
+        x = L.as_encoded_array(rows, L.enc[enc])
+        exp = ('rows', M.reverse_complement_rows(rows))
+    res.transitions += 1
+    try:
+        y = L.rc(x)
+        obs = observe_seq(y)
+    except observe.ObserverError:
+        raise
+    except Exception as e:
+        record_failure(res, 'revcomp-raises', case, feats, 'a result', exc_name(e) + ': ' + str(e)[:200], e)
+        res.outcome('ladder:raises')
+        return
+    v = judge(obs, exp, 'revcomp')
+    if v is not None:
+        got = obs[1] if isinstance(obs, tuple) and len(obs) > 1 else obs
+        want = exp[1]
+        first = next((i for i, (a, b) in enumerate(zip(got, want)) if a != b), None) if hasattr(got, '__len__') else None
+        record_failure(res, v[0], case, feats, {'first_difference_at': first, 'expected_there': None if first is None else want[first]},
+                       {'first_difference_at': first, 'observed_there': None if first is None or first >= len(got) else got[first],
+                        'lengths': [len(want), len(got) if hasattr(got, '__len__') else None]}, None)
+        res.outcome('ladder:%s:%s:differs' % (layout, size))
+        return
+    if layout == 'flat' and enc == 'ACGT' and n % 3 == 0:
+        # translation of the same letters, handed over as a one-row ASCII collection (the input form check_tr judges)
+        res.transitions += 1
+        try:
+            t = observe_seq(L.tr(L.as_encoded_array([text], L.enc['ASCII'])))
+        except observe.ObserverError:
+            raise
+        except Exception as e:
+            record_failure(res, 'translate-raises', case, feats, 'a result', exc_name(e) + ': ' + str(e)[:200], e)
+            return
+        want = M.translate(text)
+        if not (isinstance(t, tuple) and t[0] == 'rows' and t[1] == [want]):
+            got = t[1][0] if isinstance(t, tuple) and t[0] == 'rows' and len(t[1]) == 1 else t
+            first = next((i for i, (a, b) in enumerate(zip(got, want)) if a != b), None) if isinstance(got, str) else None
+            record_failure(res, 'translate-differs-from-genetic-code', case, dict(feats, op='ladder-translate'),
+                           {'first_difference_at': first}, {'first_difference_at': first, 'lengths': [len(want), len(got) if isinstance(got, str) else None]}, None)
+            res.outcome('ladder:translate:differs')
+            return
+    res.outcome('ladder:%s:%s:ok' % (layout, size))
+
+
 SECTIONS = {'flat': cases_flat, 'ragged': cases_ragged, 'profiles': cases_profiles, 'st_small': cases_st_small,
-            'st_sets': cases_st_sets, 'tr_single': cases_tr_single, 'tr_batch': cases_tr_batch}
+            'st_sets': cases_st_sets, 'tr_single': cases_tr_single, 'tr_batch': cases_tr_batch, 'ladder': cases_ladder}
 
 
 # ---------------------------------------------------------------------------- bounds and shards
@@ -957,6 +1051,9 @@ def units(tier, seed):
     batch_profiles = [p for r in (2, 3) for t in (0, 1, 2) for p in (list(q) for q in M.length_profiles(r, t))]
     for g in range(0, 64, 4):
         add('tr_batch', profiles=batch_profiles, firsts=list(range(g, g + 4)))
+    sizes = ladder_sizes(tier)
+    for i in range(0, len(sizes), 3):
+        add('ladder', sizes=sizes[i:i + 3])
     if not quick:
         for i in range(64):
             add('tr_single', n_codons=3, firsts=[i])
@@ -998,6 +1095,8 @@ def unit_cost(d):
         if d['apis'] == 'all':
             cost += sum(n - j for j in js if j >= d['first']) * 2 * 4.5
         return cost
+    if sec == 'ladder':
+        return sum(d['sizes']) * 0.012 + 5
     if sec == 'tr_single':
         k = d['n_codons']
         if k == 1:
